@@ -412,10 +412,10 @@ func runC13(c *fw.Ctx, cs fw.Case) {
 
 func init() {
 	fw.Register(&fw.Monitor{
-		ID:        "C03",
-		Level:     "exploration",
-		Technique: "runtime differential oracle: full-window alpha-beta vs an independent windowless negamax with its own score arithmetic, over generated positions, histories and search configurations; PV replayed on the rules oracle; board snapshot before/after",
-		Rule: "one evaluation = one full-window search (configuration drawn from 10 recipes: full / plausible-move / no-under-promotion exploration x static / quiescence / one-ply-if-checked leaves with Material, hash, TUROCHAMP, BERNSTEIN, SARGON evaluators) on a generated root with history (mating nets, sparse endings, shuffled histories with repetitions looming, clocks 94-99, middlegames, synthetic, promotion races, mate and stalemate roots), depth chosen by branching (1-7) so that the reference stays within its node budget; compared: score, PV legality/length/first-move value, board hand-back; distinct = distinct (configuration, depth, history)",
+		ID:          "C03",
+		Level:       "exploration",
+		Technique:   "runtime differential oracle: full-window alpha-beta vs an independent windowless negamax with its own score arithmetic, over generated positions, histories and search configurations; PV replayed on the rules oracle; board snapshot before/after",
+		Rule:        "one evaluation = one full-window search (configuration drawn from 10 recipes: full / plausible-move / no-under-promotion exploration x static / quiescence / one-ply-if-checked leaves with Material, hash, TUROCHAMP, BERNSTEIN, SARGON evaluators) on a generated root with history (mating nets, sparse endings, shuffled histories with repetitions looming, clocks 94-99, middlegames, synthetic, promotion races, mate and stalemate roots), depth chosen by branching (1-7) so that the reference stays within its node budget; compared: score, PV legality/length/first-move value, board hand-back; distinct = distinct (configuration, depth, history)",
 		Assumptions: []string{"the tree (legal moves, draw flags) is the board's own: C01/C05 monitor those independently", "explorations used select at least one legal move whenever one exists (C20)", "a mate delivered exactly at the horizon is a leaf (both searches evaluate it statically), mirrored by the reference"},
 		Setup:       validateOracle,
 		Timeout:     minutes(15, 120),
@@ -428,10 +428,10 @@ func init() {
 		Run: runC03,
 	})
 	fw.Register(&fw.Monitor{
-		ID:        "C13",
-		Level:     "exploration",
-		Technique: "runtime differential oracle: windowed alpha-beta and quiescence results checked against the window contract around the reference value (comparison in the reference's own order)",
-		Rule: "for generated roots/configurations/depths as in C03 the reference value v is computed once, then up to 14 windows (a,b) drawn around v (v-e..v+e, bounds equal to v, far below/above, mate-valued bounds M+-1..9, won, lost, in all combinations) are searched: r=v inside, v<=r<=a below, b<=r<=v above; quiescence is also called directly with windows: same contract, never below the static evaluation when a legal move exists, exact at mate/stalemate; distinct = distinct (configuration, depth, history)",
+		ID:          "C13",
+		Level:       "exploration",
+		Technique:   "runtime differential oracle: windowed alpha-beta and quiescence results checked against the window contract around the reference value (comparison in the reference's own order)",
+		Rule:        "for generated roots/configurations/depths as in C03 the reference value v is computed once, then up to 14 windows (a,b) drawn around v (v-e..v+e, bounds equal to v, far below/above, mate-valued bounds M+-1..9, won, lost, in all combinations) are searched: r=v inside, v<=r<=a below, b<=r<=v above; quiescence is also called directly with windows: same contract, never below the static evaluation when a legal move exists, exact at mate/stalemate; distinct = distinct (configuration, depth, history)",
 		Assumptions: []string{"as C03"},
 		Setup:       validateOracle,
 		Timeout:     minutes(15, 120),
